@@ -73,6 +73,8 @@ partial def tyOf? : Sexp → Option Ty
         | "syn::Path" => some Maps.KeyKind.path
         | _ => none)
       pure (.map k (kind == "btree_map") (← tyOf? t))
+  | .list [.atom "vec", t] => do pure (.vec (← tyOf? t))
+  | .list [.atom "recv", .str n] => some (.recv n)
   | _ => none
 
 def optNat? : Sexp → Option (Option Nat)
@@ -88,6 +90,10 @@ def oracleOf? : Sexp → Option Oracle
             o := { o with floats := (← w.asNat?, s, ← optNat? res) :: o.floats }
         | .list [.atom "syn", .str k, .str s, res] =>
             o := { o with syns := (k, s, ← optStr? res) :: o.syns }
+        | .list [.atom "val", .str k, v] =>
+            o := { o with vals := (k, ← Val.ofSexp? v) :: o.vals }
+        | .list [.atom "sim", .str a, .str b, n] =>
+            o := { o with scores := (a, b, ← n.asNat?) :: o.scores }
         | .list [.atom "arr", .str s, res] =>
             let e ← (match res with
               | .atom "none" => some none
@@ -102,7 +108,7 @@ def answer (c : Sexp) : String :=
   | .list [.atom "fm", ty, entry, orc] =>
       match tyOf? ty, oracleOf? orc with
       | some ty, some o =>
-          let h := hooksOf o ty
+          let h := hooksOf o (fun _ => {}) ty
           match entry with
           | .list [.atom "meta", m] =>
               (match metaOf? m with
